@@ -1,7 +1,5 @@
-// ---- part ssudp: codec/shadowsocks/udp.rs (dispatch, legacy datagrams, sessions), client/shadowsocks.rs udp module ----
-/// udp.rs 2022 datagram paths: unsafe code (advance_mut, raw-pointer u64 reads, split_at_mut, static cipher cache): NOT verified.
-/// ASSUMED only: the outcome is a function of the arguments (and of the clock, constant during a call)
-uninterp spec fn ext_udp2022_err<const N: usize>(kind: CipherKind, context: udp__Context<N>, s: Seq<u8>) -> bool;
+// ---- part ssudp: codec/shadowsocks/udp.rs (dispatch, legacy and 2022 datagrams, sessions), client/shadowsocks.rs udp module ----
+/// udp.rs 2022 datagram ENCODE paths: unsafe code (advance_mut over uninitialised memory, static cipher cache): NOT verified, no contract.
 impl<const N: usize> udp__AEADCipherCodec<N> {
     #[verifier::external_body]
     fn encode_client_packet_aead_2022(&self, context: &udp__Context<N>, session: &udp__Session<N>, address: &Address, item: BytesMut, dst: &mut BytesMut) -> (r: anyhow::Result<()>)
@@ -9,13 +7,205 @@ impl<const N: usize> udp__AEADCipherCodec<N> {
     #[verifier::external_body]
     fn encode_server_packet_aead_2022(&self, context: &udp__Context<N>, session: &udp__Session<N>, address: &Address, item: BytesMut, dst: &mut BytesMut) -> (r: anyhow::Result<()>)
     { unimplemented!() }
+}
+// ---- SIP022 3.2 (UDP): packet layouts as spec functions, written from the specification ----
+//   AES-GCM variants:  AES-ECB(psk, session id(8) | packet id(8)) | [identity header(16), client->server with users] | AEAD(session sub-key, nonce = (sid|pid)[4..16], body)
+//   XChaCha variants:  nonce(24) | AEAD(psk, nonce, session id(8) | packet id(8) | body)
+//   body client->server: type 0 | timestamp(8) | padding length(2) | padding | address | payload
+//   body server->client: type 1 | timestamp(8) | client session id(8) | padding length(2) | padding | address | payload
+spec fn aes_bits(kind: CipherKind) -> int { if kind is Aead2022Blake3Aes128Gcm { 128 } else { 256 } }
+spec fn nonce_len22(kind: CipherKind) -> int { if kind.has_eih() { 0 } else { 24 } }
+spec fn udp22_session_key(kind: CipherKind, key: Seq<u8>, sid: u64) -> Seq<u8> {
+    blake3_kdf("shadowsocks 2022 session subkey"@, key + be_bytes(sid as nat, 8)).take(key_len_of(kind) as int)
+}
+/// the separate header of the AES variants, decrypted
+spec fn udp22_hdr(kind: CipherKind, psk: Seq<u8>, s: Seq<u8>) -> Seq<u8> { aes_ecb_dec(aes_bits(kind), psk, s.take(16)) }
+/// opening a packet: (session id, packet id, body).  `ukey`: the key the body is sealed under (psk, or the user key named by the identity header);
+/// `skip`: where the AEAD part of an AES packet starts (16, or 32 behind an identity header)
+spec fn udp22_open(kind: CipherKind, psk: Seq<u8>, ukey: Seq<u8>, skip: int, s: Seq<u8>) -> Option<(u64, u64, Seq<u8>)> {
+    if kind.has_eih() {
+        let hdr = udp22_hdr(kind, psk, s);
+        let sid = be_val(hdr.take(8)) as u64;
+        match aead_open(alg_of(kind), udp22_session_key(kind, ukey, sid), hdr.subrange(4, 16), Seq::empty(), s.skip(skip)) {
+            Some(b) => Some((sid, be_val(hdr.subrange(8, 16)) as u64, b)),
+            None => None,
+        }
+    } else {
+        match aead_open(if kind is Aead2022Blake3ChaCha8Poly1305 { 4 } else { 5 }, psk.take(32), s.take(24), Seq::empty(), s.skip(24)) {
+            Some(p) => if p.len() < 16 { None } else { Some((be_val(p.take(8)) as u64, be_val(p.subrange(8, 16)) as u64, p.skip(16))) },
+            None => None,
+        }
+    }
+}
+pub struct Udp22Body { pub csid: u64, pub addr: AddrV, pub payload: Seq<u8> }
+/// the authenticated body: type byte of the *other* side, timestamp within 30 s of the local clock, padding, address, payload
+spec fn udp22_body(s2c: bool, b: Seq<u8>) -> Option<Udp22Body> {
+    let fixed: int = if s2c { 19 } else { 11 };
+    if b.len() < fixed { None }
+    else if b[0] != (if s2c { 1u8 } else { 0u8 }) { None }
+    else if !ts_fresh(be_val(b.subrange(1, 9)) as u64) { None }
+    else {
+        let pl = be_val(b.subrange(fixed - 2, fixed)) as int;
+        if b.len() < fixed + pl { None } else {
+            match parse5(b.skip(fixed + pl)) {
+                None => None,
+                Some((v, n)) => Some(Udp22Body { csid: if s2c { be_val(b.subrange(9, 17)) as u64 } else { 0 }, addr: v, payload: b.skip(fixed + pl + n) }),
+            }
+        }
+    }
+}
+pub struct Udp22Pkt { pub sid: u64, pub pid: u64, pub body: Udp22Body }
+spec fn udp22_parse(kind: CipherKind, psk: Seq<u8>, ukey: Seq<u8>, eih: int, s2c: bool, s: Seq<u8>) -> Option<Udp22Pkt> {
+    if s.len() < nonce_len22(kind) + 32 + eih { None }
+    else {
+        match udp22_open(kind, psk, ukey, 16 + eih, s) {
+            None => None,
+            Some((sid, pid, b)) => match udp22_body(s2c, b) { None => None, Some(body) => Some(Udp22Pkt { sid, pid, body }) },
+        }
+    }
+}
+/// server side: with registered users (AES variants) the identity header names the user whose key seals the body
+spec fn udp22_eih<const N: usize>(kind: CipherKind, ctx: udp__Context<N>) -> int { if kind.has_eih() && ctx.has_users() { 16 } else { 0 } }
+spec fn udp22_user_hash(kind: CipherKind, psk: Seq<u8>, s: Seq<u8>) -> Seq<u8> { xor_seq(aes_ecb_dec(aes_bits(kind), psk, s.subrange(16, 32)), udp22_hdr(kind, psk, s)) }
+#[verifier::opaque]
+spec fn udp22_server_parse<const N: usize>(kind: CipherKind, ctx: udp__Context<N>, s: Seq<u8>) -> Option<(Udp22Pkt, Option<ServerUser<N>>)> {
+    if udp22_eih(kind, ctx) == 16 {
+        if s.len() < 48 { None } else {
+            match ctx.user_manager->0.lookup(udp22_user_hash(kind, ctx.key@, s)) {
+                None => None,
+                Some(u) => match udp22_parse(kind, ctx.key@, u.key@, 16, false, s) { None => None, Some(p) => Some((p, Some(u))) },
+            }
+        }
+    } else {
+        match udp22_parse(kind, ctx.key@, ctx.key@, 0, false, s) { None => None, Some(p) => Some((p, None)) }
+    }
+}
+proof fn lemma_skip_skip(s: Seq<u8>, a: int, b: int) requires 0 <= a, 0 <= b, a + b <= s.len() ensures s.skip(a).skip(b) == s.skip(a + b) { assert(s.skip(a).skip(b) =~= s.skip(a + b)); }
+proof fn lemma_skip_take(s: Seq<u8>, a: int, b: int) requires 0 <= a, 0 <= b, a + b <= s.len() ensures s.skip(a).take(b) == s.subrange(a, a + b) { assert(s.skip(a).take(b) =~= s.subrange(a, a + b)); }
+proof fn lemma_take_is_subrange(s: Seq<u8>, n: int) requires 0 <= n <= s.len() ensures s.take(n) == s.subrange(0, n) {}
+proof fn lemma_take_sub(s: Seq<u8>, n: int, a: int, b: int) requires 0 <= a <= b <= n <= s.len() ensures s.take(n).subrange(a, b) == s.subrange(a, b) { assert(s.take(n).subrange(a, b) =~= s.subrange(a, b)); }
+proof fn lemma_take_skip(s: Seq<u8>, n: int, a: int) requires 0 <= a <= n <= s.len() ensures s.take(n).skip(a) == s.subrange(a, n) { assert(s.take(n).skip(a) =~= s.subrange(a, n)); }
+proof fn lemma_take_all(s: Seq<u8>) ensures s.take(s.len() as int) == s, s.skip(0) == s { assert(s.take(s.len() as int) =~= s); assert(s.skip(0) =~= s); }
+/// an opened body is the packet minus nonce, session/packet id and tag
+proof fn lemma_udp22_open_len(kind: CipherKind, psk: Seq<u8>, ukey: Seq<u8>, eih: int, s: Seq<u8>)
+    requires kind.is_2022(), s.len() >= nonce_len22(kind) + 32 + eih, eih == 0 || (eih == 16 && kind.has_eih()),
+    ensures udp22_open(kind, psk, ukey, 16 + eih, s) matches Some((_, _, b)) ==> b.len() + nonce_len22(kind) + 32 + eih == s.len(),
+{
+    if kind.has_eih() {
+        let hdr = udp22_hdr(kind, psk, s);
+        let sid = be_val(hdr.take(8)) as u64;
+        let k = udp22_session_key(kind, ukey, sid);
+        let ct = s.skip(16 + eih);
+        axiom_open_unique(alg_of(kind), k, hdr.subrange(4, 16), Seq::empty(), ct);
+        if let Some(b) = aead_open(alg_of(kind), k, hdr.subrange(4, 16), Seq::empty(), ct) {
+            axiom_seal_len(alg_of(kind), k, hdr.subrange(4, 16), Seq::empty(), b);
+            assert(ct.len() == s.len() - 16 - eih);
+        }
+    } else {
+        let a: int = if kind is Aead2022Blake3ChaCha8Poly1305 { 4 } else { 5 };
+        let ct = s.skip(24);
+        axiom_open_unique(a, psk.take(32), s.take(24), Seq::empty(), ct);
+        if let Some(p) = aead_open(a, psk.take(32), s.take(24), Seq::empty(), ct) {
+            axiom_seal_len(a, psk.take(32), s.take(24), Seq::empty(), p);
+            assert(ct.len() == s.len() - 24);
+        }
+    }
+}
+spec fn user_val<const N: usize>(u: Option<Arc<ServerUser<N>>>) -> Option<ServerUser<N>> { match u { Some(a) => Some(*a), None => None } }
+/// the key a client packet's body is sealed under, and the user it is attributed to (spec of the server's choice)
+spec fn udp22_key_choice<const N: usize>(kind: CipherKind, ctx: udp__Context<N>, s: Seq<u8>, ukey: Seq<u8>, user: Option<ServerUser<N>>) -> bool {
+    &&& udp22_eih(kind, ctx) == 16 ==> (ctx.user_manager->0.lookup(udp22_user_hash(kind, ctx.key@, s)) == user && (user matches Some(u) && ukey == u.key@))
+    &&& udp22_eih(kind, ctx) == 0 ==> (user is None && ukey == ctx.key@)
+}
+/// udp22_server_parse, one level unfolded, for a packet long enough to hold the ids, the identity header and a tag
+proof fn lemma_udp22_server_compose<const N: usize>(kind: CipherKind, ctx: udp__Context<N>, s: Seq<u8>, ukey: Seq<u8>, user: Option<ServerUser<N>>)
+    requires kind.is_2022(), s.len() >= nonce_len22(kind) + 32 + udp22_eih(kind, ctx), udp22_key_choice(kind, ctx, s, ukey, user),
+    ensures udp22_server_parse(kind, ctx, s) == (match udp22_open(kind, ctx.key@, ukey, 16 + udp22_eih(kind, ctx), s) {
+        None => None,
+        Some((sid, pid, b)) => match udp22_body(false, b) { None => None, Some(body) => Some((Udp22Pkt { sid, pid, body }, user)) },
+    }),
+{
+    reveal(udp22_server_parse);
+}
+/// an identity header that names nobody: no packet
+proof fn lemma_udp22_server_nouser<const N: usize>(kind: CipherKind, ctx: udp__Context<N>, s: Seq<u8>)
+    requires udp22_eih(kind, ctx) == 16, ctx.user_manager->0.lookup(udp22_user_hash(kind, ctx.key@, s)) is None,
+    ensures udp22_server_parse(kind, ctx, s) is None,
+{
+    reveal(udp22_server_parse);
+}
+/// a client packet too short for its fixed fields is no packet
+proof fn lemma_udp22_server_short<const N: usize>(kind: CipherKind, ctx: udp__Context<N>, s: Seq<u8>)
+    requires kind.is_2022(), s.len() < nonce_len22(kind) + 43 + udp22_eih(kind, ctx),
+    ensures udp22_server_parse(kind, ctx, s) is None,
+{
+    reveal(udp22_server_parse);
+    if udp22_eih(kind, ctx) == 16 {
+        if s.len() >= 48 {
+            match ctx.user_manager->0.lookup(udp22_user_hash(kind, ctx.key@, s)) {
+                Some(u) => { lemma_udp22_open_len(kind, ctx.key@, u.key@, 16, s); }
+                None => {}
+            }
+        }
+    } else if s.len() >= nonce_len22(kind) + 32 {
+        lemma_udp22_open_len(kind, ctx.key@, ctx.key@, 0, s);
+    }
+}
+proof fn lemma_parse5_len(s: Seq<u8>) ensures parse5(s) matches Some((_, n)) ==> n <= s.len() {}
+/// the cuts of a body that the decoders make with get_u8 / get_u64 / get_u16 / advance, in terms of subrange
+proof fn lemma_udp22_body_cuts(b: Seq<u8>)
+    ensures
+        b.len() >= 9 ==> b.skip(1).take(8) == b.subrange(1, 9) && b.skip(1).skip(8) == b.skip(9),
+        b.len() >= 11 ==> b.skip(9).take(2) == b.subrange(9, 11) && b.skip(9).skip(2) == b.skip(11),
+        b.len() >= 17 ==> b.skip(9).take(8) == b.subrange(9, 17) && b.skip(9).skip(8) == b.skip(17),
+        b.len() >= 19 ==> b.skip(17).take(2) == b.subrange(17, 19) && b.skip(17).skip(2) == b.skip(19),
+{
+    if b.len() >= 9 { assert(b.skip(1).take(8) =~= b.subrange(1, 9)); assert(b.skip(1).skip(8) =~= b.skip(9)); }
+    if b.len() >= 11 { assert(b.skip(9).take(2) =~= b.subrange(9, 11)); assert(b.skip(9).skip(2) =~= b.skip(11)); }
+    if b.len() >= 17 { assert(b.skip(9).take(8) =~= b.subrange(9, 17)); assert(b.skip(9).skip(8) =~= b.skip(17)); }
+    if b.len() >= 19 { assert(b.skip(17).take(2) =~= b.subrange(17, 19)); assert(b.skip(17).skip(2) =~= b.skip(19)); }
+}
+/// when a 2022 datagram is refused (an unreadable clock refuses everything)
+spec fn udp22_err<const N: usize>(kind: CipherKind, ctx: udp__Context<N>, s: Seq<u8>) -> bool {
+    match ctx.stream_type {
+        Mode::Client => !(clock_ok() && udp22_parse(kind, ctx.key@, ctx.key@, 0, true, s) is Some),
+        Mode::Server => !(clock_ok() && udp22_server_parse(kind, ctx, s) is Some),
+    }
+}
+impl<const N: usize> udp__Context<'_, N> {
+    spec fn has_users(&self) -> bool { self.user_manager matches Some(m) && m.count() > 0 }
+}
+/// udp.rs get_cipher (unsafe: static LruCache mutated through a shared reference, keyed by (kind, address of the key slice, session id)):
+/// NOT verified.  ASSUMED: the cache is transparent - the cipher handed out is the one new_cipher builds for these arguments.
+#[verifier::external_body]
+unsafe fn udp__get_cipher<'a>(kind: CipherKind, key: &'a [u8], session_id: u64) -> (r: &'a CipherMethod)
+    requires kind.is_2022(), key@.len() >= key_len_of(kind),
+    ensures udp_cipher_is(*r, kind, key@, session_id),
+{ unimplemented!() }
+/// SIP022 UDP ciphers: AES-GCM under the per-session sub-key; XChaCha8 / XChaCha20-Poly1305 under the pre-shared key itself
+spec fn udp_cipher_is(c: CipherMethod, kind: CipherKind, key: Seq<u8>, session_id: u64) -> bool {
+    &&& kind.has_eih() ==> (c.alg() == alg_of(kind) && c.key() == blake3_kdf("shadowsocks 2022 session subkey"@, key + be_bytes(session_id as nat, 8)).take(key_len_of(kind) as int))
+    &&& kind is Aead2022Blake3ChaCha8Poly1305 ==> (c.alg() == 4 && c.key() == key.take(32))
+    &&& kind is Aead2022Blake3ChaCha20Poly1305 ==> (c.alg() == 5 && c.key() == key.take(32))
+}
+/// aead_2022/udp.rs aes_{en,de}crypt_in_place (RustCrypto block types): one AES-ECB block in place; Err iff the key length is not the cipher's
+#[verifier::external_body]
+fn a22udp__aes_decrypt_in_place<B: MutBlock + ?Sized>(kind: CipherKind, key: &[u8], buf: &mut B) -> (r: anyhow::Result<()>)
+    requires kind.has_eih(), old(buf).blk().len() == 16,
+    ensures r is Ok == (key@.len() == key_len_of(kind)),
+        r is Ok ==> final(buf).blk() == aes_ecb_dec(if kind is Aead2022Blake3Aes128Gcm { 128 } else { 256 }, key@, old(buf).blk()),
+        r is Err ==> final(buf).blk() == old(buf).blk(),
+        final(buf).blk().len() == old(buf).blk().len(),
+{ unimplemented!() }
+/// what is passed as `&mut [u8]` to the block helpers (a `&mut [u8]` itself, or `&mut BytesMut` through DerefMut)
+pub trait MutBlock { spec fn blk(&self) -> Seq<u8>; }
+impl MutBlock for [u8] { open spec fn blk(&self) -> Seq<u8> { self@ } }
+impl MutBlock for BytesMut { open spec fn blk(&self) -> Seq<u8> { self@ } }
+impl<const N: usize> ServerUserManager<N> {
     #[verifier::external_body]
-    fn decode_server_packet_aead_2022(&self, context: &udp__Context<N>, src: &mut BytesMut) -> (r: Result<udp__SessionPacket<N>, anyhow::Error>)
-        ensures r is Err == ext_udp2022_err(self.kind, *context, old(src)@)
-    { unimplemented!() }
-    #[verifier::external_body]
-    fn decode_client_packet_aead_2022(&self, context: &udp__Context<N>, src: &mut BytesMut) -> (r: Result<udp__SessionPacket<N>, anyhow::Error>)
-        ensures r is Err == ext_udp2022_err(self.kind, *context, old(src)@)
+    fn clone_user_by_hash(&self, user_hash: &[u8]) -> (r: Option<Arc<ServerUser<N>>>)
+        ensures r matches Some(u) ==> self.registered(*u) && u.identity_hash@ == user_hash@,
+            match self.lookup(user_hash@) { Some(u) => r matches Some(a) && *a == u, None => r is None },
     { unimplemented!() }
 }
 impl<const N: usize> Clone for udp__Session<N> {
@@ -38,7 +228,7 @@ spec fn legacy_udp_err(kind: CipherKind, key: Seq<u8>, s: Seq<u8>) -> bool {
     })
 }
 spec fn udp_err<const N: usize>(c: udp__AEADCipherCodec<N>, ctx: udp__Context<N>, s: Seq<u8>) -> bool {
-    if c.kind.is_2022() { ext_udp2022_err(c.kind, ctx, s) } else { legacy_udp_err(c.kind, ctx.key@, s) }
+    if c.kind.is_2022() { udp22_err(c.kind, ctx, s) } else { legacy_udp_err(c.kind, ctx.key@, s) }
 }
 
 //@@ octo-squirrel/src/codec/shadowsocks/udp.rs:34-36  struct AEADCipherCodec  sha=f8e930065e2a4dbb
@@ -46,7 +236,7 @@ pub struct udp__AEADCipherCodec<const N: usize> {
     kind: CipherKind,
 }
 
-//@@ octo-squirrel/src/codec/shadowsocks/udp.rs:38-341  impl AEADCipherCodec {fn new,fn encode,fn new_encoder,fn decode,fn new_decoder}  sha=4e57777643e1db06
+//@@ octo-squirrel/src/codec/shadowsocks/udp.rs:38-341  impl AEADCipherCodec {fn new,fn encode,fn new_encoder,fn decode,fn decode_server_packet_aead_2022,fn decode_client_packet_aead_2022,fn new_decoder}  sha=ce49cc5cf987cdd7
 impl<const N: usize> udp__AEADCipherCodec<N> {
     spec fn wf(&self, context: &udp__Context<N>) -> bool { !(self.kind is Unknown) && N == key_len_of(self.kind) && context.key@.len() == N }
     fn new(kind: CipherKind) -> (r: Self)
@@ -120,6 +310,228 @@ impl<const N: usize> udp__AEADCipherCodec<N> {
                 Ok((packet, address, udp__Session::default()))
             }
         }
+    }
+
+    // for client mode
+    fn decode_server_packet_aead_2022(&self, context: &udp__Context<N>, src: &mut BytesMut) -> (r: Result<udp__SessionPacket<N>, anyhow::Error>)
+        requires self.wf(context), self.kind.is_2022(), context.stream_type is Client,
+        ensures
+            //#C05 C10 C02 C03 C11
+            // a server packet is delivered exactly if it opens under the pre-shared key, is typed as a server packet, is fresh and well-formed
+            r is Err == !(clock_ok() && udp22_parse(self.kind, context.key@, context.key@, 0, true, old(src)@) is Some),
+            //#C05 C10 C02 C03 C14
+            r matches Ok(t) ==> (udp22_parse(self.kind, context.key@, context.key@, 0, true, old(src)@) matches Some(p)
+                && t.0@ == p.body.payload && absaddr(t.1) == p.body.addr && canonical(t.1)
+                && t.2.client_session_id == p.body.csid && t.2.server_session_id == p.sid && t.2.packet_id == p.pid && t.2.user is None),
+    {
+        fn decrypt_message<'a, const N: usize>(
+            kind: CipherKind,
+            src: &'a mut BytesMut,
+            context: &udp__Context<'_, N>,
+        ) -> (r: Result<(u64, u64, &'a [u8]), anyhow::Error>)
+            requires kind.is_2022(), context.key@.len() == key_len_of(kind), old(src)@.len() >= nonce_len22(kind) + 32,
+            ensures
+                //#C05 C03
+                match udp22_open(kind, context.key@, context.key@, 16, old(src)@) {
+                    Some((sid, pid, b)) => r matches Ok(t) && t.0 == sid && t.1 == pid && t.2@ == b,
+                    None => r is Err,
+                },
+                r matches Ok(t) ==> t.2@.len() + nonce_len22(kind) + 32 == old(src)@.len(),
+        {
+            let ghost s0 = src@;
+            let tag_size = kind.tag_size();
+            match kind {
+                CipherKind::Aead2022Blake3Aes128Gcm | CipherKind::Aead2022Blake3Aes256Gcm => {
+                    let (session_id_packet_id, text) = src.split_at_mut(16);
+                    a22udp__aes_decrypt_in_place(kind, context.key, session_id_packet_id)?;
+                    let ghost hdr = session_id_packet_id@;
+                    proof { assert(hdr == udp22_hdr(kind, context.key@, s0)); lemma_take_is_subrange(hdr, 8); }
+                    let mut cursor = Cursor::new(session_id_packet_id);
+                    let server_session_id = cursor.get_u64();
+                    let packet_id = cursor.get_u64();
+                    let session_id_packet_id = cursor.into_inner();
+                    let nonce = &session_id_packet_id[4..16];
+                    let cipher = unsafe { udp__get_cipher(kind, context.key, server_session_id) };
+                    let ghost ct = text@;
+                    proof { assert(ct == s0.skip(16)); }
+                    cipher.decrypt_in_place_detached(nonce, &[], text).map_err(|e| verif_err())?;
+                    let ghost dec_text = text@;
+                    let text = &text[..text.len() - tag_size];
+                    proof { lemma_take_is_subrange(dec_text, ct.len() - 16); }
+                    Ok((server_session_id, packet_id, text))
+                }
+                CipherKind::Aead2022Blake3ChaCha8Poly1305 | CipherKind::Aead2022Blake3ChaCha20Poly1305 => {
+                    let (nonce, text) = src.split_at_mut(a22udp__nonce_length(kind));
+                    let session_id = {
+                        let slice = &text[..8];
+                        let slice: &[u64] = verif_from_raw_parts(slice, 1);
+                        u64::from_be(slice[0])
+                    };
+                    let cipher = unsafe { udp__get_cipher(kind, context.key, session_id) };
+                    let ghost ct = text@;
+                    proof { assert(ct == s0.skip(24)); assert(nonce@ == s0.take(24)); lemma_take_all(context.key@); }
+                    cipher.decrypt_in_place_detached(nonce, &[], text).map_err(|e| verif_err())?;
+                    let ghost p = text@.take(ct.len() - 16);
+                    let mut cursor = Cursor::new(text);
+                    let server_session_id = cursor.get_u64();
+                    let packet_id = cursor.get_u64();
+                    let text = cursor.into_inner();
+                    let ghost cursor_text = text@;
+                    proof { lemma_take_is_subrange(p, 8); lemma_take_sub(text@, ct.len() - 16, 0, 8); lemma_take_sub(text@, ct.len() - 16, 8, 16); }
+                    let text = &text[16..text.len() - tag_size];
+                    proof { lemma_take_skip(cursor_text, ct.len() - 16, 16); }
+                    Ok((server_session_id, packet_id, text))
+                }
+                _ => return Err(verif_err()),
+            }
+        }
+
+        let ghost s0 = src@;
+        proof { if s0.len() >= nonce_len22(self.kind) + 32 { lemma_udp22_open_len(self.kind, context.key@, context.key@, 0, s0); } }
+
+        let nonce_length = a22udp__nonce_length(self.kind);
+        let tag_size = self.kind.tag_size();
+        let header_length = nonce_length + tag_size + 8 + 8 + 1 + 8 + 8 + 2;
+        if src.remaining() < header_length {
+            return Err(verif_err());
+        }
+        let (server_session_id, packet_id, text) = decrypt_message(self.kind, src, context)?;
+        let ghost b = text@;
+        proof { lemma_udp22_body_cuts(b); }
+        let mut packet = BytesMut::with_capacity(text.len());
+        packet.extend_from_slice(text);
+        proof { assert(Seq::<u8>::empty() + b =~= b); }
+        let stream_type = packet.get_u8();
+        let expect_stream_type = context.stream_type.expect_u8();
+        if stream_type != expect_stream_type {
+            return Err(verif_err());
+        }
+        a22__validate_timestamp(packet.get_u64()).map_err(verif_err_from)?;
+        let client_session_id = packet.get_u64();
+        let padding_length = packet.get_u16();
+        if packet.remaining() < padding_length as usize {
+            return Err(verif_err());
+        }
+        if padding_length > 0 {
+            packet.advance(padding_length as usize);
+        }
+        proof { lemma_skip_skip(b, 19, padding_length as int); }
+        let session = udp__Session::new(client_session_id, server_session_id, packet_id, None);
+        let address = address__decode(&mut packet)?;
+        proof { let n = parse5(b.skip(19 + padding_length))->Some_0.1; lemma_parse5_len(b.skip(19 + padding_length)); lemma_skip_skip(b, 19 + padding_length, n as int); }
+        Ok((packet, address, session))
+    }
+
+    // for server mode
+    fn decode_client_packet_aead_2022(&self, context: &udp__Context<N>, src: &mut BytesMut) -> (r: Result<udp__SessionPacket<N>, anyhow::Error>)
+        requires self.wf(context), self.kind.is_2022(), context.stream_type is Server,
+        ensures
+            //#C05 C06 C10 C02 C03 C11
+            // a client packet is delivered exactly if it opens under the pre-shared key (with users: under the key of the registered user named by
+            // the identity header), is typed as a client packet, is fresh and well-formed
+            r is Err == !(clock_ok() && udp22_server_parse(self.kind, *context, old(src)@) is Some),
+            //#C05 C06 C10 C02 C03 C14
+            r matches Ok(t) ==> (udp22_server_parse(self.kind, *context, old(src)@) matches Some(pu)
+                && t.0@ == pu.0.body.payload && absaddr(t.1) == pu.0.body.addr && canonical(t.1)
+                && t.2.client_session_id == pu.0.sid && t.2.server_session_id == 0 && t.2.packet_id == pu.0.pid
+                && (match pu.1 { Some(u) => t.2.user matches Some(a) && *a == u && context.user_manager->0.registered(u), None => t.2.user is None })),
+    {
+        let ghost s0 = src@;
+        let ghost eihg: int = udp22_eih(self.kind, *context);
+        proof { if s0.len() < nonce_len22(self.kind) + 43 + eihg { lemma_udp22_server_short(self.kind, *context, s0); } }
+        let nonce_length = a22udp__nonce_length(self.kind);
+        let tag_size = self.kind.tag_size();
+        let user_manager = context.user_manager.as_ref();
+        let require_eih = self.kind.support_eih() && user_manager.is_some_and(|u| -> (r: bool) ensures r == (u.count() > 0) { u.user_count() > 0 });
+        proof { assert(require_eih == (eihg == 16)); }
+        let eih_size = if require_eih { 16 } else { 0 };
+        let header_length = nonce_length + tag_size + 8 + 8 + eih_size + 1 + 8 + 2;
+        if src.remaining() < header_length {
+            return Err(verif_err());
+        }
+        let mut user = None;
+        let (session_id, packet_id, mut packet) = match self.kind {
+            CipherKind::Aead2022Blake3Aes128Gcm | CipherKind::Aead2022Blake3Aes256Gcm => {
+                let mut session_id_packet_id = src.split_to(16);
+                a22udp__aes_decrypt_in_place(self.kind, context.key, &mut session_id_packet_id)?;
+                let ghost hdr = session_id_packet_id@;
+                proof { assert(hdr == udp22_hdr(self.kind, context.key@, s0)); lemma_take_is_subrange(hdr, 8); }
+                let mut nonce: [u8; 12] = [0; 12];
+                nonce.copy_from_slice(&session_id_packet_id[4..16]);
+                let mut cursor = Cursor::new(session_id_packet_id);
+                let session_id = cursor.get_u64();
+                let packet_id = cursor.get_u64();
+                let session_id_packet_id = cursor.into_inner();
+                if require_eih {
+                    let mut eih = src.split_to(16);
+                    proof { lemma_skip_take(s0, 16, 16); lemma_skip_skip(s0, 16, 16); }
+                    /*R2*/
+                    a22udp__aes_decrypt_in_place(self.kind, context.key, &mut eih)?;
+                    verif_xor_in_place(&mut eih,session_id_packet_id);
+                    proof { assert(eih@ == udp22_user_hash(self.kind, context.key@, s0)); }
+                    if let Some(_user) = user_manager.unwrap().clone_user_by_hash(&eih) {
+                        /*R2*/
+                        user = Some(_user);
+                    } else {
+                        proof { lemma_udp22_server_nouser(self.kind, *context, s0); }
+                        return Err(verif_err());
+                    }
+                }
+                let key = if let Some(ref user) = user { &user.key } else { context.key };
+                let ghost gu: Option<ServerUser<N>> = user_val(user);
+                proof { assert(udp22_key_choice(self.kind, *context, s0, key@, gu)); lemma_udp22_server_compose(self.kind, *context, s0, key@, gu); }
+                let cipher = unsafe { udp__get_cipher(self.kind, key, session_id) };
+                let ghost src1 = src@;
+                let mut packet = src.split_off(0);
+                proof { lemma_take_all(src1); assert(packet@ == s0.skip(16 + eihg)); }
+                cipher.decrypt_in_place(&nonce, &[], &mut packet).map_err(|e| verif_err())?;
+                proof { assert(udp22_open(self.kind, context.key@, key@, 16 + eihg, s0) == Some((session_id, packet_id, packet@))); lemma_udp22_open_len(self.kind, context.key@, key@, eihg, s0); }
+                (session_id, packet_id, packet)
+            }
+            CipherKind::Aead2022Blake3ChaCha8Poly1305 | CipherKind::Aead2022Blake3ChaCha20Poly1305 => {
+                let (nonce, text) = src.split_at_mut(nonce_length);
+                let session_id = {
+                    let slice = &text[..8];
+                    let slice: &[u64] = verif_from_raw_parts(slice, 1);
+                    u64::from_be(slice[0])
+                };
+                let cipher = unsafe { udp__get_cipher(self.kind, context.key, session_id) };
+                let ghost ct = text@;
+                proof { assert(ct == s0.skip(24)); assert(nonce@ == s0.take(24)); lemma_take_all(context.key@);
+                    assert(udp22_key_choice(self.kind, *context, s0, context.key@, None)); lemma_udp22_server_compose(self.kind, *context, s0, context.key@, None); }
+                cipher.decrypt_in_place_detached(nonce, &[], text).map_err(|e| verif_err())?;
+                let ghost p = text@.take(ct.len() - 16);
+                let mut cursor = Cursor::new(text);
+                let server_session_id = cursor.get_u64();
+                let packet_id = cursor.get_u64();
+                let text = cursor.into_inner();
+                let ghost cursor_text = text@;
+                proof { lemma_take_is_subrange(p, 8); lemma_take_sub(text@, ct.len() - 16, 0, 8); lemma_take_sub(text@, ct.len() - 16, 8, 16); }
+                let text = &text[16..text.len() - tag_size];
+                proof { lemma_take_skip(cursor_text, ct.len() - 16, 16); assert(udp22_open(self.kind, context.key@, context.key@, 16 + eihg, s0) == Some((server_session_id, packet_id, text@))); lemma_udp22_open_len(self.kind, context.key@, context.key@, eihg, s0); }
+                (server_session_id, packet_id, BytesMut::from(text))
+            }
+            _ => return Err(verif_err()),
+        };
+        let ghost b = packet@;
+        proof { lemma_udp22_body_cuts(b); }
+        let stream_type = packet.get_u8();
+        if stream_type != Mode::Client.to_u8() {
+            return Err(verif_err());
+        }
+        a22__validate_timestamp(packet.get_u64()).map_err(verif_err_from)?;
+        let padding_length = packet.get_u16();
+        if packet.remaining() < padding_length as usize {
+            return Err(verif_err());
+        }
+        if padding_length > 0 {
+            packet.advance(padding_length as usize);
+        }
+        proof { lemma_skip_skip(b, 11, padding_length as int); }
+        let session = udp__Session::new(session_id, 0, packet_id, user);
+        let address = address__decode(&mut packet)?;
+        proof { let n = parse5(b.skip(11 + padding_length))->Some_0.1; lemma_parse5_len(b.skip(11 + padding_length)); lemma_skip_skip(b, 11 + padding_length, n as int); }
+        Ok((packet, address, session))
     }
 
     fn new_decoder(&self, key: &[u8], salt: &BytesMut) -> (r: anyhow::Result<ChunkDecoder>)
